@@ -1,15 +1,51 @@
-"""Per-property configuration of bin/check."""
+"""Per-property configuration of bin/check: feature builds, bounded model-checking runs (quick / thorough
+configuration files under spec/), replay caps."""
 
 PINNED = []   # named deviations describing the tree as pinned (empty once the fix: commits are in)
-
 BOTH = ["full", "nodef"]
+
+def mc(module, quick, thorough, **kw):
+    d = {"module": module, "cfg_quick": quick, "cfg_thorough": thorough}
+    d.update(kw)
+    return d
+
+WRAP = [mc("MC_Wrap", "MC_Wrap.cfg", "MC_Wrap_t.cfg", timeout_thorough=3000, heap="12g"),
+        mc("MC_Wrap", "MC_Wrap_u.cfg", "MC_Wrap_ut.cfg", timeout_thorough=3000, heap="12g")]
+ANSI = mc("MC_Ansi", "MC_Ansi.cfg", "MC_Ansi_t.cfg")
+WORDS = mc("MC_Words", "MC_Words.cfg", "MC_Words_t.cfg")
+BREAK = mc("MC_Break", "MC_Break.cfg", "MC_Break_t.cfg")
+FF = mc("MC_FirstFit", "MC_FirstFit.cfg", "MC_FirstFit_t.cfg")
+OPT = [mc("MC_Optimal", "MC_Optimal.cfg", "MC_Optimal_t.cfg", timeout_thorough=3000, heap="12g"), mc("MC_Optimal", "MC_Optimal_p.cfg", "MC_Optimal_p.cfg")]
+REL = mc("MC_Rel", "MC_Rel.cfg", "MC_Rel_t.cfg")
+INDENT = mc("MC_Indent", "MC_Indent.cfg", "MC_Indent_t.cfg")
+REFILL = mc("MC_Refill", "MC_Refill.cfg", "MC_Refill_t.cfg")
+COLUMNS = mc("MC_Columns", "MC_Columns.cfg", "MC_Columns_t.cfg")
+INPLACE = mc("MC_Inplace", "MC_Inplace.cfg", "MC_Inplace_t.cfg")
+
 PROPS = {
-    "C01": {"builds": BOTH}, "C02": {"builds": BOTH}, "C03": {"builds": ["full"]}, "C04": {"builds": BOTH},
-    "C05": {"builds": BOTH}, "C06": {"builds": BOTH}, "C07": {"builds": BOTH}, "C08": {"builds": BOTH},
-    "C09": {"builds": BOTH}, "C10": {"builds": BOTH}, "C11": {"builds": BOTH}, "C12": {"builds": BOTH},
-    "C13": {"builds": BOTH}, "C14": {"builds": BOTH}, "C15": {"builds": BOTH}, "C16": {"builds": BOTH},
-    "C17": {"builds": BOTH}, "C18": {"builds": ["full"]}, "C19": {"builds": ["full"]}, "C20": {"builds": BOTH},
+    "C01": {"builds": BOTH, "mc": WRAP},
+    "C02": {"builds": BOTH, "mc": WRAP + [ANSI]},
+    "C03": {"builds": ["full"], "mc": OPT + [WRAP[0]]},
+    "C04": {"builds": BOTH, "mc": [WRAP[0], REFILL, INPLACE, COLUMNS, BREAK]},
+    "C05": {"builds": BOTH, "mc": [WRAP[0], REL]},
+    "C06": {"builds": BOTH, "mc": [FF, OPT[0]]},
+    "C07": {"builds": BOTH, "mc": [FF, WRAP[0]]},
+    "C08": {"builds": BOTH, "mc": WRAP},
+    "C09": {"builds": BOTH, "mc": [REL]},
+    "C10": {"builds": BOTH, "mc": [ANSI]},
+    "C11": {"builds": BOTH, "mc": [WORDS]},
+    "C12": {"builds": BOTH, "mc": [BREAK]},
+    "C13": {"builds": BOTH, "mc": [REL]},
+    "C14": {"builds": BOTH, "mc": [REL]},
+    "C15": {"builds": BOTH, "mc": [REFILL, REL]},
+    "C16": {"builds": BOTH, "mc": [REL]},
+    "C17": {"builds": BOTH, "mc": [INPLACE]},
+    "C18": {"builds": ["full"], "mc": [INDENT]},
+    "C19": {"builds": ["full"], "mc": [INDENT]},
+    "C20": {"builds": BOTH, "mc": [COLUMNS]},
 }
 for _p in PROPS.values():
     _p.setdefault("dev", PINNED)
     _p.setdefault("mc", [])
+    _p.setdefault("replay_cap_quick", 12000)
+    _p.setdefault("replay_cap_thorough", 400000)
